@@ -522,6 +522,9 @@ FaultStep ==
           /\ pviol' = (IF p >= 0 /\ sig # "none" THEN <<<<"C08", sig, [kind |-> a.fkind, pos |-> p, rc |-> Ev.out.rc, rules |-> a.rules]>>>> ELSE <<>>) \o
                       \* one failing call is one input/output error in the summary (never more: an error must not be counted again
                       \* for the stripes that follow; it may be 0 only through the known findings F3/F4 on parity writes)
+                      (IF p >= 0 /\ Ev.out.io = 0 /\ Ev.out.rc # 0 /\ a.fkind \in {"data-read", "parity-read"}
+                          /\ ("opts" \in DOMAIN a => ~a.opts.prehash)      \* an error in the pre-hash phase ends the command at once, with a message and no summary
+                       THEN <<<<"C08", "io-error-not-counted", [kind |-> a.fkind, pos |-> p, io |-> Ev.out.io]>>>> ELSE <<>>) \o
                       (IF p >= 0 /\ Ev.out.io > 1 THEN <<<<"C08", "one-io-error-counted-several-times", [kind |-> a.fkind, pos |-> p, io |-> Ev.out.io]>>>> ELSE <<>>) \o
                       (IF others # {} THEN <<<<"C08", "io-error-changes-the-outcome-of-other-stripes", [kind |-> a.fkind, pos |-> p, others |-> others]>>>> ELSE <<>>) \o
                       (IF Ev.state.sha.f # sha.f THEN <<<<"C12", Ev.e \o "-changed-data", <<>>>>>> ELSE <<>>) \o
